@@ -8,6 +8,8 @@ the model) and decides whether property C05 held:
     are all other registers unless the case itself changed one between save_context and the apply (`inject … co|po x`);
   * the fixed probe evaluation prints what it printed before the failed call; the part after ` side ` (state
     installed outside the registers) may differ only when the evaluation reports a completed install (`say did-…`);
+  * in a backend() case the registers at the poll point of the next cycle (`loop …`) are those of the loop; the heart
+    beat of an object goes off only when an uncaught error was reported;
   * a catch that caught an error leaves this_player() as it was at the catch point (`cg-changed` marker of the
     LPC side); a completed evaluation may keep a command_giver it set itself (`say set-cg`);
   * a catch yields 0, the message of the error that was raised last (as reported to the master's error_handler),
@@ -62,22 +64,30 @@ def thrownOf (input : List String) : List String :=
     | [] => []
   go ts
 
-def alwaysFields : List String := ["sp", "csp", "cg", "ctx", "ld", "rd"]
+def alwaysFields : List String := ["sp", "csp", "cg", "ctx", "ld", "rd", "cgs", "qv"]
 def otherFields : List String := ["co", "po", "prog", "ct", "fp", "pc", "fio", "vio"]
 
 def machinePart (probe : String) : String := (splitOnStr probe " side ").headD ""
 def sidePart (probe : String) : String := ((splitOnStr probe " side ").drop 1).headD ""
 
+/-- the value every catch yields.  `caught M` is what the master's error_handler logged for an error that a catch is about
+    to receive (`pending`): the catch statement that prints next MUST show exactly `M` — not 0, not 1, not the value of
+    some catch the handler executed itself — or the injected fault when that hit the handler after it had logged.
+    A catch that prints without a pending error shows 0, a value thrown by the program, or the injected fault (the
+    handler was hit before it logged).  An error reported as uncaught (`err …`) ends the pending state. -/
 def checkCatches (thrown : List String) (segs : List String) : List String :=
-  let rec go (last : Option String) : List String → List String
+  let rec go (pending : Option String) : List String → List String
     | [] => []
     | s :: rest =>
       if s.startsWith "caught " then go (some (s.drop 7).toString) rest
+      else if s.startsWith "err " then go none rest
       else if s.startsWith "catch " then
         let v := (s.drop 6).toString
-        let ok := v == "0" || v == injected || some v == last || thrown.contains v
-        (if ok then [] else [s!"catch-value got '{v}' after error '{last.getD "-"}'"]) ++ go last rest
-      else go last rest
+        let ok := match pending with
+          | some m => v == m || v == injected
+          | none => v == "0" || v == injected || thrown.contains v
+        (if ok then [] else [s!"catch-value got '{v}' after error '{pending.getD "-"}'"]) ++ go none rest
+      else go pending rest
   go none segs
 
 structure JSt where
@@ -97,14 +107,39 @@ def judgeOutcome (thrown : List String) (st : JSt) (tag text : String) : List St
     else some s!"restore {tag} {k} before={field st.base k} after={field fs k}")
   let probeBad :=
     if st.probe0 != "" && machinePart o.probe != machinePart st.probe0 then [s!"probe {tag} differs: '{o.probe}'"] else []
+  -- one cycle of backend(): the snapshot at the poll point of the NEXT cycle (after the backend's own recovery) must
+  -- show the registers of the loop as they were
+  let loopBad := if st.base.isEmpty then [] else o.segs.flatMap (fun sg =>
+    if sg.startsWith "loop " then
+      let ls := snapFields (sg.drop 5).toString
+      (alwaysFields ++ otherFields).filterMap (fun k =>
+        if field ls k == field st.base k then none
+        else some s!"restore {tag}-loop {k} before={field st.base k} after={field ls k}")
+    else [])
   let installed := o.segs.any (fun s => s.startsWith "say did-")
+  let side := snapFields (sidePart o.probe)
+  let side0 := snapFields (sidePart st.probe0)
   let sideBad :=
-    if st.probe0 != "" && sidePart o.probe != sidePart st.probe0 && !installed then
+    if st.probe0 != "" && field side "in" != field side0 "in" && !installed then
       [s!"half-install {tag} side state '{sidePart o.probe}' without a completed install"] else []
-  let crashBad := if o.segs.any (fun s => s.startsWith "crash") then [s!"crash {tag} {o.segs.getLastD ""}"] else []
+  -- the heart beat of an object may only go off when an uncaught error was reported (`err …` by the master's handler)
+  -- (an injected fault that hits the master's handler before it logs leaves no `err` line: then the evaluation failed at
+  -- driver level, or the fault of this run was not caught by any catch)
+  let reported := o.segs.any (fun s => s.startsWith "err ") || o.segs.contains "fault-top" ||
+    (tag == "fault" && !o.segs.any (fun s => s == "catch " ++ injected || s == "caught " ++ injected))
+  let hbBad :=
+    if st.probe0 != "" && field side "hb" != field side0 "hb" && !reported && !st.exempt.contains "hb" then
+      [s!"heart-beat {tag} side state '{sidePart o.probe}' changed without an error reaching the driver"] else []
+  let crashBad := (if o.segs.any (fun s => s.startsWith "crash") then [s!"crash {tag} {o.segs.getLastD ""}"] else []) ++
+    -- an evaluation that printed so much that its record was cut off before the snapshot (an error-handler storm)
+    (if o.after == "" then [s!"crash {tag} truncated-trace"] else [])
   -- the LPC side compares this_player() before and after every catch that caught something
   let cgBad := if o.segs.any (fun s => (s.splitOn "cg-changed").length > 1) then [s!"restore {tag} command_giver not restored by catch"] else []
-  regBad ++ probeBad ++ sideBad ++ crashBad ++ cgBad ++ checkCatches thrown o.segs
+  -- … and a heart_beat() that failed (the error reached the backend) must not stay on: it would fail again every tick
+  let hbStayBad :=
+    if st.probe0 != "" && field side0 "hb" == "1" && field side "hb" == "1" && o.segs.contains "fault-top" then
+      [s!"heart-beat {tag} still on after its evaluation failed"] else []
+  regBad ++ loopBad ++ probeBad ++ sideBad ++ hbBad ++ hbStayBad ++ crashBad ++ cgBad ++ checkCatches thrown o.segs
 
 def judgeLine (thrown : List String) (st : JSt) (line : String) : JSt :=
   if line.startsWith "crash" || line.startsWith "sanitizer" then { st with bad := st.bad ++ [s!"crash {line}"] }
@@ -173,6 +208,8 @@ def judge (input impl : List String) : List String :=
   let thrown := thrownOf input
   let exempt := input.flatMap (fun l => match toks l with
     | ["inject", _, _, r, _] => [r]
+    -- with a lowered MaxCallDepth an error can arrive so deep that the master's handler cannot run (nothing is logged)
+    | ["maxdepth", _] => ["hb"]
     | _ => [])
   (impl.foldl (judgeLine thrown) { exempt := exempt }).bad
 
